@@ -191,7 +191,7 @@ def main():
 def _replay_symplectic():
     return D.HAM_PRELUDE + '''
 from hiten.algorithms.integrators.symplectic import _recursive_update_poly
-hs = make_hamsys(0.7)
+hs = make_hamsys(0.7, mixed=0.4)
 def step(z, h):
     q = z.copy(); _recursive_update_poly(q, h, 2, 3.0, hs.jac_H, hs.clmo_H); return q
 z0 = np.concatenate([Y0, Y0 + 0.01])
@@ -213,7 +213,7 @@ _verdict(sym_err > 1e-6 or rev_err > 1e-10, symplecticity_defect=sym_err, revers
 def _replay_order(order):
     return D.HAM_PRELUDE + '''
 from hiten.algorithms.integrators.symplectic import _recursive_update_poly
-hs = make_hamsys(0.7)
+hs = make_hamsys(0.7, mixed=0.4)
 order = %d; omega = 2.0
 def integrate(n, T=1.0):
     q = np.concatenate([Y0, Y0]); h = T / n
